@@ -108,6 +108,23 @@ def check_error_ctor_pure(cx: Cx, ci, doc: str = None) -> bool:
                 (isinstance(f_, ast.Attribute) and f_.attr in ('format', 'join'))
             if not (is_super or is_fmt):
                 bad = n_
+    # a typed format specification ({x:d}, {x:.2f}, '%d' % x) fails for an argument of another type - the unknown NAME that the
+    # module-level lookup reports through the same class - and the operation then ends in ValueError / TypeError
+    spec = None
+    for n_ in ast.walk(init[0].node):
+        if isinstance(n_, ast.FormattedValue) and n_.format_spec is not None:
+            txt = ''.join(v.value for v in n_.format_spec.values if isinstance(v, ast.Constant) and isinstance(v.value, str))
+            if any(c in txt for c in 'dfeEgGxXobn%c'):
+                spec = spec or n_
+        elif isinstance(n_, ast.BinOp) and isinstance(n_.op, ast.Mod) and isinstance(n_.left, ast.Constant) and isinstance(n_.left.value, str) \
+                and any(('%' + c) in n_.left.value for c in 'dfeEgGxXoic'):
+            spec = spec or n_
+    if bad is None and spec is not None:
+        cx.violation('R-PURE', init[0].qualname, 'error-constructor-only-stores-and-formats',
+                     f"{init[0].qualname} formats an argument with a typed format specification ({ast.unparse(spec)[:60]}): built with an "
+                     f"argument of another type (a name instead of an id) the constructor itself raises ValueError / TypeError and the "
+                     f"documented {doc or ci.name} never reaches the caller", where=cx.where(init[0], spec.lineno))
+        return False
     if bad is not None:
         cx.violation('R-PURE', init[0].qualname, 'error-constructor-only-stores-and-formats',
                      f"{init[0].qualname} calls {ast.unparse(bad.func)}(...): when that call fails (identifiers of another type, a world "
@@ -860,6 +877,14 @@ def check_overrides_forward(cx: Cx, cls_q: str, names: List[str], rule='R-FWD'):
             okf = True
             for p in cx.walker.paths(fn, WalkOptions(unroll=1, callee_raises=False)):
                 if p.end == 'raise':
+                    if p.last.data.get('direct') and okf:
+                        # a refusal of its own: inputs the verified method accepts (an int subclass, ...) no longer get there
+                        okf = False
+                        cx.violation(rule, fn.qualname, f"override-of-{name}-only-forwards",
+                                     f"{fn.qualname} overrides {cls_q.rsplit('.', 1)[-1]}.{name}, whose behaviour the rules verify, and raises "
+                                     f"{p.last.data.get('exc')} itself under [{p.cond!r}]: calls the verified {name} accepts are refused for "
+                                     f"{sub.name}", where=cx.where(fn, p.last.line), path=p.lines())
+                        break
                     continue
                 calls = [e for e in p.events if e.kind == 'call' and e.data.get('via') == 'super' and e.data.get('targets')
                          and e.data['targets'][0].name == name]
@@ -888,6 +913,42 @@ def check_overrides_forward(cx: Cx, cls_q: str, names: List[str], rule='R-FWD'):
             if okf:
                 cx.ok(rule, f"{fn.qualname} only forwards to the verified {name}", where=cx.where(fn), function=fn.qualname)
     return n
+
+
+_CONTROL_FLOW_EXC = {'StopIteration', 'StopAsyncIteration', 'GeneratorExit', 'KeyboardInterrupt', 'SystemExit', 'BaseException',
+                     'Warning', 'UserWarning', 'DeprecationWarning', 'FutureWarning', 'RuntimeWarning'}
+
+
+def check_error_is_plain_exception(cx: Cx, cls_q: str, rule='R-GUARD'):
+    """A documented error reaches the caller as an error: its class derives from Exception and from none of the classes the
+    interpreter itself consumes (StopIteration ends a `for` / `map` / generator silently, warnings are filtered, BaseException
+    escapes `except Exception`)."""
+    ci = cx.prog.cls(cls_q)
+    bad = None
+    seen = set()
+    stack = [ci]
+    reaches_exception = False
+    while stack:
+        c = stack.pop()
+        if id(c) in seen:
+            continue
+        seen.add(id(c))
+        for b in c.bases:
+            if isinstance(b, str):
+                nm = b.rsplit('.', 1)[-1]
+                if nm in _CONTROL_FLOW_EXC:
+                    bad = bad or nm
+                elif nm == 'Exception' or nm.endswith('Error'):
+                    reaches_exception = True
+            else:
+                stack.append(b)
+    if bad or not reaches_exception:
+        cx.violation(rule, cls_q, 'documented-error-is-an-ordinary-exception',
+                     f"{cls_q} derives from {bad or 'no Exception class'}: raised inside an iterator callback, a generator or a `for` it is "
+                     f"consumed by the iteration protocol (or escapes `except Exception`), so the documented error never reaches the "
+                     f"caller who asked for it", where=ci.where)
+    else:
+        cx.ok(rule, f"{ci.name} is an ordinary Exception subclass", where=ci.where, function=cls_q)
 
 
 def check_deprecated_aliases_forward(cx: Cx, cls_q: str, rule='R-FWD', only=None):
